@@ -148,6 +148,10 @@ impl Interpreter {
         // That feels like overkill so for now we're just doing this.
         match first_word.to_ascii_uppercase().as_str() {
             "RUN" => {
+                // Discard any reply that was provided but never consumed (e.g.
+                // because the host broke in before the INPUT statement resumed),
+                // so it can't be mistaken for the answer to the new run's first INPUT.
+                self.input = None;
                 self.variables = Variables::default();
                 self.arrays = Arrays::default();
                 self.program.run_from_first_numbered_line();
